@@ -12,7 +12,7 @@
 //	    starts the two or three real commands of a counterexample found by TLC (spec/MC_Locks.tla) as goroutines on
 //	    ONE fresh server, with the same key-role x stripe configuration (each command on its own key names, on the
 //	    same stripes), holds every lock request at the "want" hook until the controller grants it in TLC's order,
-//	    then opens all gates and lets a 3 s watchdog decide: commands that do not return are a real deadlock of the
+//	    then opens all gates and lets a 20 s watchdog decide: commands that do not return are a real deadlock of the
 //	    real code; the stripe ownership (hook accounting + TryLock probe) is compared with TLC's prediction.
 package main
 
@@ -1196,10 +1196,10 @@ func replay(specPath string) {
 			}
 		}
 		return true
-	}, 3*time.Second)
+	}, 20*time.Second)
 	cmu.Lock()
 	if !allDone {
-		logEv("watchdog: not all commands returned within 3 s")
+		logEv("watchdog: not all commands returned within 20 s")
 	}
 	// predicted ownership from the observed programmes
 	predStuck := map[int]stuckInfo{}
